@@ -29,7 +29,7 @@ from lbry.dht.serialization.datagram import (RequestDatagram, ResponseDatagram, 
 
 import vlib
 
-FUEL_LO, FUEL_HI = 100, 3000          # the model's nesting bound; Python's own limit lies strictly between
+FUEL_LO, FUEL_HI = 100, 2500          # the model's nesting bound; Python's own limit lies strictly between
 CORPUS = os.path.join(vlib.VERIF, 'harness', 'corpus', 'C17')
 OWN_ID = bytes(range(1, 49))
 
@@ -92,6 +92,10 @@ def ref_bdecode(data):
         elif key is _NOKEY:
             if not isinstance(val, (bytes, int)):
                 raise RefError('unhashable key')
+            if cont:
+                prev = next(reversed(cont))
+                if type(prev) is not type(val) or not prev < val:
+                    raise RefError('keys not in strictly increasing order')
             stack[-1] = (kind, cont, val)
         else:
             cont[key] = val
@@ -149,8 +153,43 @@ def ref_bdecode(data):
 _NOKEY = object()
 
 
+def _no_dict(v):
+    if isinstance(v, dict):
+        return False
+    if isinstance(v, list):
+        return all(_no_dict(x) for x in v)
+    return True
+
+
+def _flat_dict(v):
+    return isinstance(v, dict) and all(_no_dict(x) for x in v.values())
+
+
+def ref_header_broken(data):
+    """True when the datagram is canonical bencode of a dictionary with integer keys that claims a packet type
+    but whose header is not that of a protocol message (type outside 0..2, an id missing, not bytes or of the
+    wrong length, a required field of its class missing): such a datagram must be dropped"""
+    try:
+        d = ref_bdecode(data)
+    except (RefError, ValueError):
+        return False
+    if not isinstance(d, dict) or not d or not all(isinstance(k, int) for k in d):
+        return False
+    t = d.get(0)
+    if t not in (0, 1, 2):
+        return True
+    need = {0: (1, 2, 3), 1: (1, 2, 3), 2: (1, 2, 3, 4)}[t]
+    if any(k not in d for k in need):
+        return True
+    return not (isinstance(d[1], bytes) and len(d[1]) == 20 and isinstance(d[2], bytes) and len(d[2]) == 48)
+
+
 def ref_read_message(data):
-    """the reference reading of a datagram as a protocol message, or None if it is not one"""
+    """the reference reading of a datagram as a protocol message, or None if it is not one: canonical bencode
+    (keys in increasing order, canonical integers, nothing after the value) of a dictionary with exactly the
+    integer keys of its class, ids of 20 / 48 bytes, and the protocol's shapes: request args = values without
+    dictionaries followed by one flat dictionary carrying protocolVersion 1; response = a value without
+    dictionaries or one flat dictionary; error = two UTF-8 texts"""
     try:
         d = ref_bdecode(data)
     except (RefError, ValueError):
@@ -169,10 +208,12 @@ def ref_read_message(data):
         if not isinstance(d[3], bytes) or not isinstance(d[4], list) or not d[4]:
             return None
         last = d[4][-1]
-        if not isinstance(last, dict) or last.get(b'protocolVersion') != 1:
+        if not _flat_dict(last) or last.get(b'protocolVersion') != 1 or not all(_no_dict(x) for x in d[4][:-1]):
             return None
         return {'cls': 'request', 'rpc_id': d[1].hex(), 'node_id': d[2].hex(), 'method': jv(d[3]), 'args': jv(d[4])}
     if t == 1:
+        if not (_no_dict(d[3]) or _flat_dict(d[3])):
+            return None
         return {'cls': 'response', 'rpc_id': d[1].hex(), 'node_id': d[2].hex(), 'response': jv(d[3])}
     if not isinstance(d[3], bytes) or not isinstance(d[4], bytes):
         return None
@@ -211,7 +252,8 @@ def jv_sorted(j):
     if j[0] == 'l':
         return ['l', [jv_sorted(x) for x in j[1]]]
     if j[0] == 'd':
-        return ['d', sorted(([jv_sorted(k), jv_sorted(x)] for k, x in j[1]), key=lambda p: json.dumps(p[0]))]
+        return ['d', sorted(([jv_sorted(k), jv_sorted(x)] for k, x in j[1]),
+                            key=lambda p: (0, int(p[0][1]), b'') if p[0][0] == 'i' else (1, 0, bytes.fromhex(p[0][1])) if p[0][0] == 'b' else (2, 0, b''))]
     return j
 
 
@@ -477,7 +519,7 @@ def raw_enc(v):
 
 def gen_confused_value(rng, depth=0, n=None):
     c = rng.random()
-    n = n if n is not None else rng.choice([0, 1, 2, 20, 48])
+    n = n if n is not None else rng.choice([0, 1, 2, 20, 48] if depth == 0 else [0, 1, 2, 3, 5])
     if c < 0.25 or (depth > 2 and c < 0.6):
         return rng.choice([-1, 0, 1, 2, 5, 70000, 3333, 10 ** 20])
     if c < 0.5 or depth > 2:
@@ -490,22 +532,26 @@ def gen_confused_value(rng, depth=0, n=None):
 
 def gen_confused(rng):
     """a bencode dictionary with the right keys but fields of every type, reordered / missing / duplicated"""
+    def pick(*alts):                       # alternatives are thunks: only the chosen one is generated
+        return rng.choice(alts)()
+    cv = lambda: gen_confused_value(rng)   # noqa: E731
     t = rng.choice([0, 1, 2, 0, 0, 3, b'0', [0]])
     own = rng.random() < 0.05
     fields = [(rng.choice([0, 0, 0, b'0', 0, -0]), t),
-              (rng.choice([1, 1, b'1']), rng.choice([rbytes(rng, 20), b'R' * 20, gen_confused_value(rng, n=20)])),
-              (rng.choice([2, 2, b'2']), OWN_ID if own else rng.choice([rbytes(rng, 48), gen_confused_value(rng, n=48)]))]
+              (rng.choice([1, 1, b'1']), pick(lambda: rbytes(rng, 20), lambda: b'R' * 20, lambda: gen_confused_value(rng, n=20))),
+              (rng.choice([2, 2, b'2']), OWN_ID if own else pick(lambda: rbytes(rng, 48), lambda: gen_confused_value(rng, n=48)))]
     if t == 0 or rng.random() < 0.2:
-        k = rng.choice([rbytes(rng, 48), gen_confused_value(rng, n=48)])
-        cv = lambda: gen_confused_value(rng)  # noqa: E731
-        fields.append((3, rng.choice([b'ping', b'store', b'findNode', b'findValue', cv()])))
-        fields.append((4, rng.choice([cv(), [k, cv()], [k, cv(), cv(), cv(), cv()], [k, cv(), cv(), cv(), cv(), cv()], [k],
-                                      [k, ((b'p', cv()), (b'protocolVersion', 1))], ((-1, cv()),), ((-1, ((b'a', 1),)),)])))
+        k = pick(lambda: rbytes(rng, 48), lambda: gen_confused_value(rng, n=48))
+        fields.append((3, pick(lambda: b'ping', lambda: b'store', lambda: b'findNode', lambda: b'findValue', cv)))
+        fields.append((4, pick(cv, lambda: [k, cv()], lambda: [k, cv(), cv(), cv(), cv()],
+                               lambda: [k, cv(), cv(), cv(), cv(), cv()], lambda: [k],
+                               lambda: [k, ((b'p', cv()), (b'protocolVersion', 1))], lambda: ((-1, cv()),),
+                               lambda: ((-1, ((b'a', 1),)),))))
     elif t == 1:
-        fields.append((3, gen_confused_value(rng)))
+        fields.append((3, cv()))
     else:
-        fields.append((3, rng.choice([b'x', b'\xff', gen_confused_value(rng)])))
-        fields.append((4, rng.choice([b'y', b'\xc3', gen_confused_value(rng)])))
+        fields.append((3, pick(lambda: b'x', lambda: b'\xff', cv)))
+        fields.append((4, pick(lambda: b'y', lambda: b'\xc3', cv)))
     if rng.random() < 0.3:
         rng.shuffle(fields)
     if rng.random() < 0.2:
@@ -513,8 +559,72 @@ def gen_confused(rng):
     if rng.random() < 0.1:
         fields.append(rng.choice(fields))
     if rng.random() < 0.1:
-        fields.append((rng.choice([5, 100, b'x', -1]), gen_confused_value(rng)))
+        fields.append((rng.choice([5, 100, b'x', -1]), cv()))
     return raw_enc(tuple(fields))
+
+
+def gen_near_valid(rng):
+    """a valid message re-encoded after one or two edits of a FIELD (lengths, types, presence, boundaries)"""
+    rpc, node = rbytes(rng, 20), rbytes(rng, 48)
+    pv = {b'protocolVersion': 1}
+    t = rng.choice([0, 0, 0, 1, 2])
+    if t == 0:
+        m = rng.choice([b'ping', b'store', b'findNode', b'findValue'])
+        args = {b'ping': [dict(pv)], b'store': [rbytes(rng, 48), rbytes(rng, 48), rng.randrange(1, 65536), node, 0, dict(pv)],
+                b'findNode': [rbytes(rng, 48), dict(pv)], b'findValue': [rbytes(rng, 48), {b'p': rng.randrange(3), b'protocolVersion': 1}]}[m]
+        f = {0: 0, 1: rpc, 2: node, 3: m, 4: args}
+    elif t == 1:
+        f = {0: 1, 1: rpc, 2: node, 3: rng.choice([b'pong', b'OK', [[rbytes(rng, 48), b'1.2.3.4', 4444]], {b'token': rbytes(rng, 48), b'p': 0}])}
+    else:
+        f = {0: 2, 1: rpc, 2: node, 3: b"<class 'ValueError'>", 4: gen_text(rng).encode()}
+    for _ in range(rng.choice([1, 1, 2])):
+        e = rng.randrange(14)
+        if e == 0:
+            f[1] = rbytes(rng, rng.choice([0, 1, 19, 21, 40]))
+        elif e == 1:
+            f[2] = rbytes(rng, rng.choice([0, 47, 49, 96]))
+        elif e == 2:
+            f[0] = rng.choice([-1, 3, 2 ** 64, b'0', 1, 2, 0])
+        elif e == 3:
+            f.pop(rng.choice(list(f)))
+        elif e == 4:
+            f[rng.choice([5, 100, -1, b'x', b'5'])] = rng.choice([0, b'z', [1]])
+        elif e == 5:
+            k = rng.choice(list(f))
+            if isinstance(k, int):
+                f[b'%d' % k] = f.pop(k) if rng.random() < 0.5 else rng.choice([0, b'', rbytes(rng, 20), rbytes(rng, 48)])
+        elif e == 6 and 3 in f:
+            f[3] = rng.choice([b'', b'Ping', b'ping\x00', b'pin', b'stor', b'findnode', 'héllo'.encode(), b'\xff\xfe', 0, [b'ping']])
+        elif e == 7 and f.get(0) == 0:
+            f[4] = rng.choice([[], [{}], [{b'protocolVersion': 0}], [{b'x': 1}], {}, 0, b'', [[]], [0], [b'k' * 48], [b'k' * 48, {b'p': -1}], [b'k' * 48, {b'p': b'1'}]])
+        elif e == 8 and f.get(0) == 0 and isinstance(f.get(4), list) and len(f[4]) == 6:
+            i = rng.randrange(5)
+            f[4][i] = [rbytes(rng, rng.choice([0, 47, 49])), rbytes(rng, rng.choice([0, 47, 49])),
+                       rng.choice([0, -1, 1023, 1024, 65534, 65535, 65536]), rbytes(rng, 47), rng.choice([-1, 1, b'0'])][i]
+        elif e == 9 and f.get(0) == 2:
+            f[rng.choice([3, 4])] = rng.choice([b'', b'\xff', b'\xc3', b'\xed\xa0\x80', b'\xf4\x90\x80\x80', 0, [b'x'], 'ok é'.encode()])
+        elif e == 10:
+            f[1], f[2] = f.get(2, b''), f.get(1, b'')
+        elif e == 11:
+            f[1] = rng.choice([0, [rpc], {0: rpc}, list(rpc)])
+        elif e == 12:
+            f[2] = rng.choice([0, [node], list(node)])
+    items = list(f.items())
+    if rng.random() < 0.15:
+        rng.shuffle(items)
+    else:
+        try:
+            items.sort(key=lambda kv: (isinstance(kv[0], bytes), kv[0]))
+        except TypeError:
+            pass
+
+    def conv(v):
+        if isinstance(v, dict):
+            return tuple((k, conv(x)) for k, x in sorted(v.items(), key=lambda kv: (isinstance(kv[0], bytes), kv[0])))
+        if isinstance(v, list):
+            return [conv(x) for x in v]
+        return v
+    return raw_enc(tuple((k, conv(v)) for k, v in items))
 
 
 def gen_oversized(rng):
@@ -526,11 +636,11 @@ def gen_oversized(rng):
     if c == 0:
         f = [(0, 0), (1, rpc), (2, node), (3, b'A' * big), (4, [pv])]
     elif c == 1:
-        f = [(0, 0), (1, rpc), (2, node), (3, b'store'), (4, [rbytes(rng, 48), rbytes(rng, 48), _Raw(b'i1' + b'0' * big + b'e'), node, 0, pv])]
+        f = [(0, 0), (1, rpc), (2, node), (3, b'store'), (4, [rbytes(rng, 48), rbytes(rng, 48), _Raw(b'i1' + b'0' * min(big, 1500) + b'e'), node, 0, pv])]
     elif c == 2:
         f = [(0, 0), (1, rpc), (2, node), (3, b'store'), (4, [b'h' * big, rbytes(rng, 48), 3333, node, 0, pv])]
     elif c == 3:
-        f = [(0, 0), (1, rpc), (2, node), (3, b'findValue'), (4, [b'k' * big, ((b'p', _Raw(b'i1' + b'0' * big + b'e')), (b'protocolVersion', 1))])]
+        f = [(0, 0), (1, rpc), (2, node), (3, b'findValue'), (4, [b'k' * big, ((b'p', _Raw(b'i1' + b'0' * min(big, 1500) + b'e')), (b'protocolVersion', 1))])]
     else:
         f = [(0, 2), (1, rpc), (2, node), (3, b'E' * big), (4, b'x' * big)]
     return raw_enc(tuple(f))
@@ -604,7 +714,7 @@ def check_datagram(ctx, data, sender, kind, expect=None):
     impl = impl_decode(data)
     obs = ctx.node.feed(data, tuple(sender))
     mod = model.call('decode', fuel_lo=FUEL_LO, fuel_hi=FUEL_HI, data=data.hex())
-    grey = vlib.canon(mod['lo']) != vlib.canon(mod['hi'])
+    grey = vlib.canon(mod['lo']) != vlib.canon({k: v for k, v in mod['hi'].items() if k != 'effect'})
     m = mod['hi']
     run.case(case, nontrivial=len(data) > 0, sample=len(data) < 300)
     outcome = ('accept:' + impl['msg']['cls']) if 'msg' in impl else ('drop:' + impl['err'])
@@ -639,6 +749,8 @@ def check_datagram(ctx, data, sender, kind, expect=None):
             bad = f"well-formed {ref['cls']} message was rejected with {impl['err']}"
         elif vlib.canon(canon_msg(impl['msg'])) != vlib.canon(canon_msg(ref)):
             bad = 'decode_datagram reads a well-formed message differently from the reference bencode reader'
+    if not bad and 'msg' in impl and ref_header_broken(data):
+        bad = 'a datagram whose header is not that of a protocol message (ids / packet type / required field) was accepted as ' + impl['msg']['cls']
     if not bad and expect == 'drop' and 'msg' in impl:
         bad = 'corpus datagram that must be dropped was accepted as ' + impl['msg']['cls']
     if bad:
@@ -673,7 +785,8 @@ def check_message(ctx, desc, obj, kind='message'):
     run, model = ctx.run, ctx.model
     case = {'op': 'message', 'kind': kind, 'm': desc}
     impl_bytes = obj.bencode()
-    mod = model.call('encode_message', m=desc)
+    desc_ref = dict(desc, payload=jv_sorted(desc['payload'])) if 'payload' in desc else desc
+    mod = model.call('encode_message', m=desc, m_ref=desc_ref)
     run.case(case, nontrivial=True, sample=len(impl_bytes) < 300)
     run.count('message ' + desc['cls'])
     # the dict the class serialises, re-encoded by the independent encoder
@@ -869,17 +982,28 @@ def main(run):
         'texts over all UTF-8 lengths, responses (pong/OK, contact lists 0..40, findValue dictionaries with keys that '
         'sort on every side of the fixed keys, peer pages, random nested values with dictionaries in tail position); '
         'garbage into the REAL KademliaProtocol.datagram_received: every truncation and 1..3-byte mutation (replace / '
-        'insert / delete, bencode-significant and UTF-8-boundary bytes) of valid datagrams, type-confused dictionaries '
+        'insert / delete, bencode-significant and UTF-8-boundary bytes) of valid datagrams, valid messages re-encoded after '
+        'one or two FIELD edits (id lengths 19/21/47/49, packet type, missing/extra/duplicated/bytes-keyed fields, method, '
+        'args shapes, store argument boundaries, invalid UTF-8 error texts), type-confused dictionaries '
         '(every field of every bencode type, keys reordered / missing / duplicated / bytes-vs-int), oversized fields, '
         'nesting <= 100 or >= 3000 (outcomes that depend on Python\'s recursion limit are detected by running the model '
         'with both bounds and excluded from class comparison), random bytes over 7 alphabets up to 64 KiB, 8 sender '
         'addresses; exhaustive small scopes for int(bytes), UTF-8 validity and bdecode. distinct = distinct '
         '(op, input); non-trivial = every case except the empty datagram.')
 
+    import time as _t
+    _t0 = [_t.time()]
+    phases = {}
+
+    def lap(name):
+        phases[name] = round(_t.time() - _t0[0], 1)
+        _t0[0] = _t.time()
+
     # -- corpus ---------------------------------------------------------------------------------
     for c in load_corpus():
         check_datagram(ctx, bytes.fromhex(c['datagram']), tuple(c.get('sender', SENDERS[0])), 'corpus', c.get('expect'))
 
+    lap('corpus')
     # -- well-formed messages -------------------------------------------------------------------
     valid = []
     for i in range(vlib.scaled(T, 1500, 40000)):
@@ -893,6 +1017,7 @@ def main(run):
     for i in range(vlib.scaled(T, 600, 15000)):
         check_value(ctx, gen_any_value(rng, 0))
 
+    lap('messages+values')
     # -- truncations and mutations of valid datagrams ----------------------------------------------
     n_trunc = vlib.scaled(T, 14, 200)
     for b in valid[:n_trunc]:
@@ -908,21 +1033,29 @@ def main(run):
                 for v in sorted(set(INTERESTING)):
                     if v != b[pos]:
                         check_datagram(ctx, b[:pos] + bytes([v]) + b[pos + 1:], SENDERS[0], 'replace-exhaustive')
+    lap('truncations+mutations')
     # -- structured garbage -------------------------------------------------------------------------
     for i in range(vlib.scaled(T, 5000, 150000)):
+        check_datagram(ctx, gen_near_valid(rng), rng.choice(SENDERS), 'near-valid')
+    for i in range(vlib.scaled(T, 5000, 150000)):
         check_datagram(ctx, gen_confused(rng), rng.choice(SENDERS), 'type-confused')
+    lap('type-confused')
     for i in range(vlib.scaled(T, 60, 1500)):
         check_datagram(ctx, gen_oversized(rng), rng.choice(SENDERS), 'oversized')
+    lap('oversized')
     for i in range(vlib.scaled(T, 80, 1500)):
         check_datagram(ctx, gen_deep(rng), rng.choice(SENDERS), 'deep')
+    lap('deep')
     for i in range(vlib.scaled(T, 2500, 80000)):
         check_datagram(ctx, gen_random(rng, 65536), rng.choice(SENDERS), 'random')
+    lap('random')
     for n in (65535, 65536):
         check_datagram(ctx, rng.randbytes(n), SENDERS[0], 'random')
         check_datagram(ctx, b'l' * n, SENDERS[0], 'deep')
         check_datagram(ctx, b'i' + b'7' * (n - 2) + b'e', SENDERS[0], 'random')
         check_datagram(ctx, b'd' + b'1:a1:b' * ((n - 2) // 6) + b'e', SENDERS[0], 'random')
 
+    lap('64KiB extremes')
     # -- exhaustive small scopes ---------------------------------------------------------------------
     check_int_batch(ctx, [bytes([i]) for i in range(256)] + [b''], 'int-1byte')
     ialpha = b'0159 \t\n\x0b\x0c\r+-_e:.\x00\x1c\x85\xa0a'
@@ -955,6 +1088,7 @@ def main(run):
         for ch in chunks(all_strings(balpha, n), 1000):
             check_bdecode_batch(ctx, ch, 'bdecode-%dbyte' % n)
     run.exhaustive = True
+    lap('exhaustive small scopes')
     # -- compact addresses -------------------------------------------------------------------------
     for i in range(vlib.scaled(T, 600, 20000)):
         node = rbytes(rng, rng.choice([48, 48, 48, 47, 49, 0]))
@@ -970,8 +1104,9 @@ def main(run):
             ca = ca[:4] + rng.choice([b'\x00\x00', b'\x00\x01', b'\xff\xff']) + ca[6:]
         check_decompact(ctx, ca)
     ctx.node.close()
-    run.partial = ['C17_truncation_dropped_partial']
-    run.supporting = {'model_calls': model.calls}
+    run.partial = []
+    lap('compact addresses')
+    run.supporting = {'model_calls': model.calls, 'phase_seconds': phases}
     model.close()
 
 
